@@ -121,6 +121,7 @@ struct Op {
     // SetConfig
     int cfg_mode = 0;                       // 0 content, 1 absent, 2 open error (cfg_errno)
     int cfg_errno = 13;
+    int cfg_file_mode = 0;                  // permission bits of the written file (0 = 0644)
     std::string cfg;
     // Exec
     ExecOp ex;
